@@ -141,6 +141,8 @@ def _count_sweep(proto):
                  for i in range(n)]
             yield "AcStatus", 0x2D, C.at4_ac_status(a), f"AcStatus/count{n}"
             yield "GroupNames", 0x1F, C.at4_group_names([(i, NAMES[i % len(NAMES)][:8]) for i in range(n)]), f"GroupNames/count{n}"
+            if n:
+                yield "GroupNames", 0x1F, C.at4_group_names([(i, NAMES[(i + 7 - n) % len(NAMES)][:8]) for i in range(n)]), f"GroupNames/count{n}/emptylast"
         for n in range(0, 5):
             ab = [{"n": i, "name": NAMES[i][:16], "start": 4 * i, "count": 4, "modes": 0x1F, "fans": 0x7F, "min": 16, "max": 30,
                    "groups": ([4 * i, 4 * i + 1] if gb else None)} for i in range(n) for gb in [n % 2 == 0]]
@@ -158,6 +160,9 @@ def _count_sweep(proto):
             pl = C.c0(0x33, [[ac] + C._timer(on) + C._timer(off) + [0, 0, 0, 0] for ac, on, off in t], 9 + extra)
             yield "AcTimerStatus", 0xC0, pl, f"AcTimerStatus/count{n}/stride{9 + extra}"
         yield "ZoneNames", 0x1F, C.at5_zone_names([(i, NAMES[i % len(NAMES)]) for i in range(n)]), f"ZoneNames/count{n}"
+        if n:   # the empty name in first and in last position
+            yield "ZoneNames", 0x1F, C.at5_zone_names([(i, NAMES[(i + 6) % len(NAMES)]) for i in range(n)]), f"ZoneNames/count{n}/emptyfirst"
+            yield "ZoneNames", 0x1F, C.at5_zone_names([(i, NAMES[(i + 7 - n) % len(NAMES)]) for i in range(n)]), f"ZoneNames/count{n}/emptylast"
     for n in range(0, 5):
         for extra in range(0, 1):
             ab = [{"n": i, "name": NAMES[i][:16], "start": 4 * i, "count": 4, "extra": extra} for i in range(n)]
